@@ -353,6 +353,22 @@ impl Lattice {
 //@  before let new_cost = 
             proof { assert(via(*self, *conn, *r_node, i as int) == l_node.total_cost + connect_cost + node_cost); }
 //@end
+
+//@extract sudachi/src/analysis/lattice.rs :: impl Lattice :: fn connect_node
+//@  fnname connect_node__full
+//@  rw R6 1
+//@  ret res
+//@  spec
+        // FULL-STRENGTH twin (known finding F10): no assumption about the size of the costs -- the i32 sum must not overflow
+        requires conn.wf(), ids_ok(*self, *conn, *r_node),
+        ensures true,
+//@  loop 1
+            invariant
+                begin == r_node.begin, node_cost == r_node.cost,
+                conn.wf(), ids_ok(*self, *conn, *r_node),
+                __it_i <= self.ends@[begin as int]@.len(),
+            decreases self.ends@[begin as int]@.len() - __it_i
+//@end
 }
 
 } // verus!
